@@ -262,7 +262,7 @@ metadata:
 		k = "resources: [res.yaml]\nimages:\n- name: \"" + pickS(r, []string{"a(", "*", "[", "nginx", "+"}) + "\"\n  newTag: x\n"
 	case 1, 10, 11:
 		k = "resources: [res.yaml]\nreplacements:\n- source: {kind: ConfigMap, name: cm, fieldPath: " + pickS(r, []string{"data.k", "data.k", "data.k", "data.k", "data.list.-", "spec.-", "data.[x", "metadata.name.0", "data.*"}) + "}\n  targets:\n  - select: {kind: Deployment}\n    fieldPaths:\n    - \"" + pickS(r, []string{"metadata.annotations.x", "spec.template.spec.containers.-.image", "spec.template.spec.containers.[name=main].image", "spec.template.spec.volumes.-", "metadata.labels.[a=b]",
-			"spec.template.spec.containers.[name=x^].image", "spec.template.spec.containers.[name=^123$].image", "metadata.finalizers.[=$a]", "spec.template.spec.containers.[name=^main$].image"}) + "\"\n    options: {create: true}\n"
+			"spec.template.spec.containers.[name=nginx", "data.[image", "spec.[", "spec.template.spec.containers.[name=x^].image", "spec.template.spec.containers.[name=^123$].image", "metadata.finalizers.[=$a]", "spec.template.spec.containers.[name=^main$].image"}) + "\"\n    options: {create: true}\n"
 	case 2:
 		k = "resources: [res.yaml]\nnamePrefix: p-\npatches:\n- target: {kind: " + pickS(r, []string{"ConfigMap", "Deployment", "RoleBinding"}) + "}\n  patch: |-\n    - op: remove\n      path: " + pickS(r, []string{"/metadata/name", "/metadata", "/kind", "/apiVersion"}) + "\n"
 	case 3:
